@@ -41,7 +41,10 @@ where
     }
 }
 
-fn into_boxed_datagram(datagram: datagram::Datagram) -> Result<BoxedDatagram, AUTDProtoBufError> {
+fn into_boxed_datagram(
+    datagram: datagram::Datagram,
+    num_devices: usize,
+) -> Result<BoxedDatagram, AUTDProtoBufError> {
     use autd3_driver::datagram::*;
     match datagram {
         datagram::Datagram::Clear(msg) => Clear::from_msg(msg).map(IntoBoxedDatagram::into_boxed),
@@ -49,9 +52,16 @@ fn into_boxed_datagram(datagram: datagram::Datagram) -> Result<BoxedDatagram, AU
             Synchronize::from_msg(msg).map(IntoBoxedDatagram::into_boxed)
         }
         datagram::Datagram::ForceFan(msg) => {
+            // The flags are looked up by device index when the operations are generated.
+            if msg.value.len() != num_devices {
+                return Err(AUTDProtoBufError::DataParseError);
+            }
             ForceFan::from_msg(msg).map(IntoBoxedDatagram::into_boxed)
         }
         datagram::Datagram::ReadsFpgaState(msg) => {
+            if msg.value.len() != num_devices {
+                return Err(AUTDProtoBufError::DataParseError);
+            }
             ReadsFPGAState::from_msg(msg).map(IntoBoxedDatagram::into_boxed)
         }
         datagram::Datagram::Silencer(msg) => {
@@ -292,11 +302,18 @@ fn into_boxed_datagram(datagram: datagram::Datagram) -> Result<BoxedDatagram, AU
 
 fn into_datagram_tuple(
     tuple: DatagramTuple,
+    num_devices: usize,
 ) -> Result<tuple::BoxedDatagramTuple, AUTDProtoBufError> {
     let d1 = tuple.first.ok_or(AUTDProtoBufError::DataParseError)?;
-    let d1 = into_boxed_datagram(d1.datagram.ok_or(AUTDProtoBufError::DataParseError)?)?;
+    let d1 = into_boxed_datagram(
+        d1.datagram.ok_or(AUTDProtoBufError::DataParseError)?,
+        num_devices,
+    )?;
     let d2 = if let Some(d2) = tuple.second {
-        into_boxed_datagram(d2.datagram.ok_or(AUTDProtoBufError::DataParseError)?)?
+        into_boxed_datagram(
+            d2.datagram.ok_or(AUTDProtoBufError::DataParseError)?,
+            num_devices,
+        )?
     } else {
         NullDatagram.into_boxed()
     };
@@ -447,7 +464,7 @@ where
             let req = req.into_inner();
             let option = req.sender_option;
             let datagram = req.datagram.ok_or(AUTDProtoBufError::DataParseError)?;
-            let d = into_datagram_tuple(datagram)?;
+            let d = into_datagram_tuple(datagram, autd.geometry().len())?;
             let res = match option {
                 Some(option) => {
                     let option = autd3::controller::SenderOption::<
@@ -483,10 +500,11 @@ where
             let req = req.into_inner();
             let option = req.sender_option;
             let keys = req.keys;
+            let num_devices = autd.geometry().len();
             let datagrams = req
                 .datagrams
                 .into_iter()
-                .map(into_datagram_tuple)
+                .map(|tuple| into_datagram_tuple(tuple, num_devices))
                 .collect::<Result<Vec<_>, _>>()?;
             if keys.len() != autd.num_devices() {
                 return Ok(Response::new(SendResponseLightweight {
